@@ -13,15 +13,126 @@ COMMON_NOTE = ("Runtime monitoring: verdict covers only the executions produced.
                "sqlite3, immutables, CPython. ")
 
 # pid -> (category, technique, text, note, design_ref)
+N = COMMON_NOTE
 CHECKS = {
+    "C01": ("exploration", "runtime monitor on CoinState.add_block + reference-model oracle over generated adversarial candidates",
+            "Every add_block call on generated block trees (forks, reorganisations) is recorded at the boundary; an accepted "
+            "candidate is re-judged by an independent ledger replay and ECDSA check, a rejected one must leave the receiver's deep "
+            "fingerprint unchanged and usable. 12 adversarial spend classes, each re-mined so that only the spend rule is broken "
+            "(confirmed per candidate by the reference). Exploration is the right level: the quantifier ranges over all histories "
+            "and attacker inputs, which running code can only sample.",
+            N + "Scrypt is replaced by a stand-in and the checkpoint horizon disabled in this lane (C18/C05 tie back to the real ones).",
+            "DESIGN.md 4/C01"),
+    "C02": ("exploration", "conservation monitor on accepted blocks + direct-call oracle on synthetic ledgers",
+            "After every accepted block sums are read from the real per-block unspent maps and compared with the literal subsidy "
+            "schedule and reference fees; 18 value/reward candidate classes incl. exact bound, bound+1, zero/over-limit/wrapping "
+            "values; the real transaction and reward validators are also called directly on synthetic ledgers with values up to "
+            "and beyond the maximum supply, both directions compared with the reference predicate.",
+            N + "Stand-in scrypt, horizon disabled; synthetic ledgers are built with the public CoinState constructor.",
+            "DESIGN.md 4/C02"),
+    "C03": ("exploration", "state-comparison monitor after every block arrival vs reference replay; snapshot re-fingerprinting",
+            "Per-block unspent sets and per-key balances of the real state are compared with a replay of the block's ancestors "
+            "in the reference ledger after every arrival, under several (for small trees all) parent-before-child arrival orders; "
+            "every state object ever returned is fingerprinted at creation and again later.",
+            N + "One auxiliary shard runs under -X dev (debug allocator) for the immutables C map; never the deciding step.",
+            "DESIGN.md 4/C03"),
+    "C04": ("exploration", "exhaustive enumeration of arrival histories + invariant check after every arrival",
+            "All parent vectors up to 7 (quick) / 9 (thorough) blocks after genesis are executed through the real CoinState and "
+            "after every arrival head, tip set, by-height index at every block and forks() are compared with a 30-line reference "
+            "over the parent vector; plus random long histories of mined blocks through the validating entry point. Exhaustive "
+            "within the bound, sampled beyond.",
+            N, "DESIGN.md 4/C04"),
+    "C05": ("exploration", "runtime monitor on add_block with single-rule-broken header candidates; pure-function differential lanes",
+            "16 header candidate classes (work, target, height, time, evidence), a short-retarget-period configuration lane with "
+            "forks crossing boundaries with different timings, clock boundary pairs, every block from the node's own assembly "
+            "judged by both sides, retarget arithmetic and chain sampling compared on boundary/random inputs; thorough adds the "
+            "documented 10,080 period over a prefix and blocks mined with the unreplaced scrypt.",
+            N + "Quick tier uses the stand-in scrypt and a shortened retarget period (configuration lane) next to the real period.",
+            "DESIGN.md 4/C05"),
+    "C06": ("fault_enumeration", "exhaustive single-bit-flip and truncation injection on block encodings, judged by the real decoder and validator",
+            "Every bit and every truncation point of each fuzzed block is injected; whatever still decodes goes through the full "
+            "validation path on the state without and with the original block. Exhaustive per block, sampled over blocks.",
+            N + "Stand-in scrypt for generated chains; the thorough tier repeats it on the recorded real blocks with the real scrypt.",
+            "DESIGN.md 4/C06"),
+    "C07": ("exploration", "round-trip and decode/re-encode monitors over generated values and mutated byte strings",
+            "Encode-decode-encode on generated values of every serializable class compared field by field and with an independent "
+            "encoder; every consensus decoder is offered structure-aware mutations (alternative length-prefix encodings at every "
+            "position, tags, truncation, trailing data) and random bytes, and what decodes must re-encode to the consumed bytes; "
+            "ids from bytes, from the store and from constructors are compared with the hash of the canonical encoding.",
+            N, "DESIGN.md 4/C07"),
+    "C08": ("exploration", "offline checker over the write log vs reloads of a file-backed store",
+            "Random block trees (shared pending transactions across forks, multi-input transactions) are written with random "
+            "batching; after flushes a fresh BlockStore on the same file must yield exactly the written blocks, byte-identical, "
+            "parents first, and the real read_chain_from_disk must rebuild the same per-block ledger and head height.",
+            N + "One known finding (shared transaction id across stored blocks) is listed in KNOWN_FINDINGS.txt and keyed by mechanism.",
+            "DESIGN.md 4/C08"),
+    "C09": ("exploration", "per-delivery monitors on a real node (state, store rows, write buffer, pool, peers' inboxes) on an in-memory transport",
+            "Histories of unsolicited block deliveries (valid on any fork, duplicates, orphans, every by-itself and in-state defect "
+            "class incl. apply-error blocks) to a real LocalPeer with the real store; after each delivery the node's state is "
+            "compared with the reference verdict, the chain table is read through a second connection, relays are counted per "
+            "peer by an independent frame parser.",
+            N + "OS sockets are replaced by an in-memory transport; the real entry points under the selector loop are driven directly.",
+            "DESIGN.md 4/C09"),
+    "C10": ("exploration", "deterministic network simulation of 2-3 real nodes with seeded schedules; offline relay-count and end-state checkers",
+            "Scenarios (tree parts per node, topology, batch size) x seeded schedules of deliveries, partial reads/writes, timer "
+            "steps and clock jumps; liveness is decided only as bounded progress (quiescence at the greatest initial height within "
+            "R drain rounds); relay calls are logged per node and id.",
+            N + "Unbounded 'eventually' is out of reach for runtime monitoring; R = 100 + 4*ceil(blocks/batch) rounds of 61 virtual seconds.",
+            "DESIGN.md 4/C10"),
+    "C11": ("exploration", "exhaustive 2-/3-way fragmentation of short streams through the real receiver, history checked against a reference frame parser",
+            "Every frame carries a unique id, so the delivered sequence is an unambiguous history; all 2- and 3-way cuts of short "
+            "streams, byte-at-a-time and random k-way cuts of longer ones; corrupted magic/length/payload must be refused at that "
+            "frame under every fragmentation.",
+            N, "DESIGN.md 4/C11"),
+    "C12": ("exploration", "monitors on the miner's two real handlers driven in a nonce loop, with real node, store and wallet",
+            "Every candidate with id below target is judged by the reference and by the node's own validation before the "
+            "found-block handler runs; afterwards served chain state, chain table, peers' inboxes and a GetData probe are checked.",
+            N + "Clocks restricted to >= head timestamp - 29 (no valid child exists below that).",
+            "DESIGN.md 4/C12"),
+    "C13": ("exploration", "invariant-at-hook on the pool snapshot after every operation; auxiliary real-thread lane",
+            "After every submission (16 classes, API and wire) and every head change (extension, conflicting block, direct "
+            "replacement to any stored block, fork overtaking) the lock-protected snapshot is judged by the reference ledger at "
+            "the snapshot's head; eviction must be exact.",
+            N, "DESIGN.md 4/C13"),
+    "C14": ("exploration", "ensure-style contract around the real spend builder with a snapshot of the used-output record",
+            "Sequences of spend requests (below / at / one above / far above the spendable total, subset sums, fees) on wallets "
+            "over generated chains; returned transactions are validated by the reference and the node's validators, change and "
+            "recipient are checked exactly, failures must leave the record unchanged.",
+            N, "DESIGN.md 4/C14"),
+    "C15": ("fault_enumeration", "syscall-level SIGKILL injection (strace) and statement-level exit injection on the save; model-based sequence monitor",
+            "Every syscall and every statement boundary of a wallet save (several wallet sizes) and of the receive script is a "
+            "crash point; the file must be the complete old or new wallet and a printed address must never be handed out again. "
+            "Hand-out/restore/save/load sequences are checked against a model with an icontract class invariant.",
+            N + "Crash = process kill; power loss (no fsync in the code) is not claimed.",
+            "DESIGN.md 4/C15"),
     "C16": ("exploration", "exhaustive runtime evaluation of the real subsidy function + constant/doc cross-check",
             "The real get_block_subsidy is executed on every one of the 31.5 M heights with non-zero subsidy, on every era "
             "boundary up to 2^32 and on random heights up to 2^64; each result is compared with the documented schedule, "
-            "monotonicity is checked pairwise and the supply is summed from the calls themselves and compared with the "
-            "documented maximum and the validator's amount limit. Exhaustive over the stated finite domain, so as strong "
-            "as running the code can get.",
-            COMMON_NOTE + "The documented literals (10 coin, 1,050,000, 20,999,999.8635) are written in the harness.",
+            "monotonicity is checked pairwise and the supply is summed from the calls themselves.",
+            N + "The documented literals (10 coin, 1,050,000, 20,999,999.8635) are written in the harness.",
             "DESIGN.md 4/C16"),
+    "C17": ("exploration", "differential monitor on commitments of structurally edited id lists; independent proof fold",
+            "All single structural edits of base lists of length 1-10 (exhaustive per list) and random edits up to length 2000; "
+            "every proof is folded by the harness and followed along the path its position prescribes.",
+            N + "Entries are fresh random ids, never hashes of other entries (second-preimage resistance of SHA-256 is assumed).",
+            "DESIGN.md 4/C17"),
+    "C18": ("exploration", "direct monitors on the real checkpoint table and the recorded network blocks under the unreplaced scrypt",
+            "All 327 checkpoint heights x right/wrong ids against the real table (itself compared with a recorded copy), the "
+            "add_block path over a prefix, a horizon=k configuration lane with fully valid generated chains, and genesis + recorded "
+            "blocks validated with the real scrypt and independently recomputed evidence.",
+            N + "Only 5 real blocks beyond genesis are recorded in the repository.",
+            "DESIGN.md 4/C18"),
+    "C19": ("exploration", "event-sequence simulation with class invariant (icontract) on the peer book, offline back-off checker, crash injection on the peer file",
+            "Random event sequences on a real LocalPeer over a virtual clock; disjointness checked after every event and at every "
+            "public method boundary; back-off recomputed from the logged attempts and disconnects; 2,900 consecutive failures in "
+            "the documented-value lane; peer file judged after every write and at every crash point.",
+            N, "DESIGN.md 4/C19"),
+    "C20": ("exploration", "hostile-stream injection on one connection of a real node while honest connections are probed",
+            "Corrupted/truncated/spliced/reordered real traffic, undecodable payloads, unknown types, bad framing, invalid blocks "
+            "and transactions of every class, under random fragmentation; fingerprints of state, pool, store and write buffer "
+            "must not change, nothing may escape the entry points, honest peers must keep being served.",
+            N + "Structurally valid blocks sent as bulk-download replies are outside the statement (taken unvalidated by design).",
+            "DESIGN.md 4/C20"),
 }
 
 PENDING_REASON = "check not built yet in this revision of /verif (work in progress; no claim made)"
